@@ -90,6 +90,9 @@ struct Exchange {
     etag: Option<Vec<u8>>,
     body: Vec<u8>,
     req_json: Value,
+    /// origin-form request target and the request bytes (to re-send the same request under another nonce)
+    target: String,
+    req_body: Vec<u8>,
 }
 
 /// Send one client-built request to the in-process mock.
@@ -105,7 +108,7 @@ fn exchange(server: &TMutex<OmahaServer>, req: http::Request<hyper::Body>, meta:
     let resp = block_on(handle_request(r, server)).map_err(|e| format!("handle_request error: {}", e))?;
     let (rp, rb) = resp.into_parts();
     let rbody = block_on(hyper::body::to_bytes(rb)).map(|b| b.to_vec()).unwrap_or_default();
-    Ok(Exchange { meta, status: rp.status.as_u16(), etag: rp.headers.get("etag").map(|v| v.as_bytes().to_vec()), body: rbody, req_json })
+    Ok(Exchange { meta, status: rp.status.as_u16(), etag: rp.headers.get("etag").map(|v| v.as_bytes().to_vec()), body: rbody, req_json, target: origin_form(&parts.uri), req_body: body })
 }
 
 fn to_client_response(x: &Exchange) -> http::Response<Vec<u8>> {
@@ -361,6 +364,49 @@ pub fn run(args: &Args, r: &mut Report) {
                     }
                 } else {
                     m.judge("c17-no-valid-etag-without-key", own.is_err(), "", || format!("case {} exchange {}: server does not hold key {} but its ETag verifies", i, a, meta_a.public_key_id));
+                }
+            }
+        }
+        // ---- sibling nonces: the same request re-sent under two nonces that differ only in how their nibbles are
+        // distributed over bytes (01 10 vs 11 00): the ETag for one must not verify for the other
+        if cup && !miri && keys.server_has_client_latest {
+            if let Some(xa) = batch.iter().find(|x| x.meta.is_some() && x.target.contains("cup2key=")) {
+                let meta_a = xa.meta.as_ref().unwrap();
+                let mut n1 = [0u8; 32];
+                for b in n1.iter_mut() {
+                    *b = rng.below(256) as u8;
+                }
+                let pos = rng.usize(31);
+                let mut n2 = n1;
+                let (hi, lo) = (1 + rng.below(15) as u8, 1 + rng.below(15) as u8);
+                n1[pos] = hi; // 0h | l0  renders (unpadded) like  hl | 0
+                n1[pos + 1] = lo << 4;
+                n2[pos] = (hi << 4) | lo;
+                n2[pos + 1] = 0;
+                let nonce1 = omaha_client::cup_ecdsa::Nonce::from(n1);
+                let nonce2 = omaha_client::cup_ecdsa::Nonce::from(n2);
+                let start = xa.target.find("cup2key=").unwrap() + 8;
+                let end = xa.target[start..].find('&').map(|k| start + k).unwrap_or(xa.target.len());
+                let target = format!("{}{}:{}{}", &xa.target[..start], meta_a.public_key_id, nonce1, &xa.target[end..]);
+                let req = hyper::Request::post(target.as_str()).body(hyper::Body::from(xa.req_body.clone()));
+                if let Ok(req) = req {
+                    if let Ok(Ok(resp)) = guard(|| block_on(handle_request(req, &server))) {
+                        let (rp, rb) = resp.into_parts();
+                        let rbody = block_on(hyper::body::to_bytes(rb)).map(|b| b.to_vec()).unwrap_or_default();
+                        let mut b = http::Response::builder().status(rp.status.as_u16());
+                        if let Some(e) = rp.headers.get("etag") {
+                            b = b.header("etag", e.as_bytes());
+                        }
+                        let resp = b.body(rbody).unwrap();
+                        let meta1 = RequestMetadata { request_body: xa.req_body.clone(), public_key_id: meta_a.public_key_id, nonce: nonce1 };
+                        let meta2 = RequestMetadata { request_body: xa.req_body.clone(), public_key_id: meta_a.public_key_id, nonce: nonce2 };
+                        let own = handler.verify_response(&meta1, &resp, meta1.public_key_id);
+                        m.judge("c17-etag-verifies-for-its-exchange", own.is_ok(), "crafted-nonce", || format!("case {}: re-sent exchange under a crafted nonce: the client verifier rejects the mock's ETag: {:?}", i, own.as_ref().err()));
+                        let cross = handler.verify_response(&meta2, &resp, meta2.public_key_id);
+                        m.judge("c17-etag-fails-for-other-exchange", cross.is_err(), "sibling-nonce", || {
+                            format!("case {}: the ETag issued for nonce {} also verifies for the different nonce {} (same request body)", i, hex::encode(n1), hex::encode(n2))
+                        });
+                    }
                 }
             }
         }
